@@ -34,6 +34,7 @@ type Obligation struct {
 	Vars2     map[string]Sort
 	UsedTol   bool
 	Hunt      bool
+	ScriptHash string
 }
 
 type Interp struct {
